@@ -291,8 +291,12 @@ class Replacer:
             # keep anything absolute
             return uri
 
-        path, filename = os.path.split(path)
-        combined = os.path.normpath(os.path.join(self.base, path, filename))
+        # pathname2url quotes, so work on the unquoted path
+        path = urllib.request.url2pathname(path)
+        combined = os.path.normpath(os.path.join(self.base, path))
+        if path.endswith(os.sep) and not combined.endswith(os.sep):
+            # normpath drops the slash which marks a directory
+            combined += os.sep
         return urllib.parse.urlunsplit(
             ('', '', urllib.request.pathname2url(combined), query, fragment)
         )
